@@ -15,7 +15,7 @@ use yash_env::system::Mode;
 use yash_env::builtin::{Builtin, Type};
 use yash_env::semantics::{ExitStatus, Field};
 use yash_env::variable::Scope;
-use crate::proto::{dec_str, guarded};
+use crate::proto::{dec_str, guarded, watch_case};
 use crate::rng::Rng;
 use crate::shell::{BuiltinFuture, Config, VEnv, run_with};
 
@@ -401,6 +401,11 @@ struct Render {
     out: String,
     /// render for the real `yash3` binary: the probe built-ins are shell functions there
     real: bool,
+    /// alias surface variation (round-4 seeded change for C02): a separate stream, so that the
+    /// other surface choices of a seed stay what they were; the definitions go on a first line
+    arng: Rng,
+    alias_ok: bool,
+    aliases: Vec<(String, String)>,
 }
 impl Render {
     /// separator between commands of a list: newline, `;`, with optional blanks/comments
@@ -479,6 +484,45 @@ impl Render {
         self.out.push_str(w);
     }
     fn simple(&mut self, words: &[String]) {
+        let plain = |w: &String| !w.is_empty() && w.chars().all(|c| c.is_ascii_alphanumeric() || "+-:/_".contains(c));
+        let mut renamed: Vec<String>;
+        let mut words = words;
+        if self.alias_ok && words.iter().all(plain) && self.arng.chance(1, 6) {
+            let k = self.aliases.len();
+            match self.arng.below(4) {
+                0 => {
+                    // the whole command is the alias's value
+                    let name = format!("a{k}x");
+                    self.aliases.push((name.clone(), words.join(" ")));
+                    self.out.push_str(&name);
+                    return;
+                }
+                1 => {
+                    // only the command name, with or without a trailing blank
+                    let name = format!("a{k}x");
+                    let v = if self.arng.chance(1, 2) { format!("{} ", words[0]) } else { words[0].clone() };
+                    self.aliases.push((name.clone(), v));
+                    renamed = words.to_vec();
+                    renamed[0] = name;
+                    words = &renamed;
+                }
+                2 => {
+                    // an alias that is replaced by nothing (or blanks) in front of the command
+                    let name = format!("e{k}x");
+                    self.aliases.push((name.clone(), (*self.arng.pick(&["", " ", "  "])).into()));
+                    self.out.push_str(&name);
+                    self.out.push(' ');
+                }
+                _ => {
+                    // a chain of two aliases
+                    let (n1, n2) = (format!("a{k}x"), format!("b{k}x"));
+                    self.aliases.push((n2.clone(), words.join(" ")));
+                    self.aliases.push((n1.clone(), n2));
+                    self.out.push_str(&n1);
+                    return;
+                }
+            }
+        }
         for (i, w) in words.iter().enumerate() {
             if i > 0 {
                 self.sp();
@@ -776,7 +820,21 @@ impl Render {
                     ]);
                     w.extend(e.iter().map(|s| s.to_string()));
                 } else {
-                    w.extend(["shift".into(), "99".into()]);
+                    // status 1: an operand error, or (round-4 seeded change for C10) the standard output
+                    // of a printing special built-in fails: closed (EBADF) or fd 8, which `observe`
+                    // and `observe_real` set up as the writing end of a pipe nobody reads (EPIPE,
+                    // with SIGPIPE not killing the shell)
+                    let e: &[&str] = *self.rng.pick(&[
+                        &["shift", "99"][..],
+                        &["shift", "99"][..],
+                        &["set", ">&-"][..],
+                        &["set", ">&8"][..],
+                        &["readonly", "-p", ">&-"][..],
+                        &["readonly", "-p", ">&8"][..],
+                        &["readonly", ">&8"][..],
+                        &["times", ">&8"][..],
+                    ]);
+                    w.extend(e.iter().map(|s| s.to_string()));
                 }
                 self.simple(&w)
             }
@@ -795,7 +853,7 @@ impl Render {
                 let text = b
                     .iter()
                     .map(|it| {
-                        let mut inner = Render { rng: Rng::new(1), out: String::new(), real: self.real };
+                        let mut inner = Render { rng: Rng::new(1), out: String::new(), real: self.real, arng: Rng::new(1), alias_ok: false, aliases: vec![] };
                         inner.item(it);
                         inner.out.replace("\\\n", "").replace('\n', "; ").replace('\t', " ")
                     })
@@ -828,10 +886,11 @@ st() { return $1; }\n\
 ok() { return 0; }\n\
 tick() { eval \"_v=\\$_t$1\"; case \"$_v\" in (\"$2\"*) return 1;; esac; eval \"_t$1=x\\$_v\"; return 0; }\n\
 errf() { probe 77; }\n\
-readonly ro=0\n";
+readonly ro=0\n\
+trap '' PIPE\n";
 
 pub fn render_with(seed: u64, lines: &[Line], real: bool) -> String {
-    let mut r = Render { rng: Rng::new(seed ^ 0x5EED), out: String::new(), real };
+    let mut r = Render { rng: Rng::new(seed ^ 0x5EED), out: String::new(), real, arng: Rng::new(seed ^ 0xA11A5), alias_ok: true, aliases: vec![] };
     if lines.is_empty() {
         return (*r.rng.pick(&["", "\n", "# nothing\n", "   \n\n", "# a\n# b"])).to_string();
     }
@@ -844,6 +903,11 @@ pub fn render_with(seed: u64, lines: &[Line], real: bool) -> String {
             }
         }
         r.out.push('\n');
+    }
+    if !r.aliases.is_empty() {
+        // alias definitions take effect from the next command line on: one first line defines them all
+        let defs: Vec<String> = r.aliases.iter().map(|(n, v)| format!("{n}='{v}'")).collect();
+        return format!("alias {}\n{}", defs.join(" "), r.out);
     }
     r.out
 }
@@ -1263,6 +1327,16 @@ pub fn observe(seed: u64, lines: &[Line]) -> String {
             crate::shell::write_file(state, "/dev/null", b"");
             let mut path = env.variables.get_or_new("PATH", Scope::Global);
             let _ = path.assign("/nonexistent:/bin", None);
+            // fd 8: the writing end of a pipe that nobody reads (the simulator never sends SIGPIPE)
+            {
+                use yash_env::system::{Close as _, Dup as _, Pipe as _};
+                let (reader, writer) = env.system.pipe().unwrap();
+                if writer != yash_env::io::Fd(8) {
+                    env.system.dup2(writer, yash_env::io::Fd(8)).unwrap();
+                    env.system.close(writer).unwrap();
+                }
+                env.system.close(reader).unwrap();
+            }
             // a read-only variable for `(asgerr)`
             let mut ro = env.variables.get_or_new("ro", Scope::Global);
             let _ = ro.assign("0", None);
@@ -1351,6 +1425,18 @@ pub fn observe_real(seed: u64, lines: &[Line]) -> String {
                 libc::sigemptyset(&mut empty);
                 libc::sigprocmask(libc::SIG_SETMASK, &empty, std::ptr::null_mut());
                 libc::umask(0o022);
+                // fd 8: the writing end of a pipe that nobody reads (the prologue ignores SIGPIPE: yash-cli
+                // resets an inherited disposition of SIGPIPE to the default at start-up)
+                let mut fds = [0 as libc::c_int; 2];
+                if libc::pipe(fds.as_mut_ptr()) == 0 {
+                    if fds[1] != 8 {
+                        libc::dup2(fds[1], 8);
+                        libc::close(fds[1]);
+                    }
+                    if fds[0] != 8 {
+                        libc::close(fds[0]);
+                    }
+                }
                 Ok(())
             });
         }
@@ -1396,7 +1482,11 @@ pub fn observe_real(seed: u64, lines: &[Line]) -> String {
 
 pub fn run_case(case: &str) -> String {
     match parse_case(case) {
-        Some((seed, lines)) => guarded(|| observe(seed, &lines)),
+        Some((seed, lines)) => {
+            // generated programs terminate (bounded loops); one that runs for a minute does not
+            watch_case(case, 60);
+            guarded(|| observe(seed, &lines))
+        }
         None => "bad-case".into(),
     }
 }
